@@ -40,9 +40,23 @@ def real_system(n, cfgs, cls=None):
     from pybaselines._banded_utils import PenalizedSystem
     d, al, rev, ap, pad = cfgs[0]
     s = PenalizedSystem(n, 1, d, al, rev, ap, padding=pad)
-    for (d, al, rev, ap, pad) in cfgs[1:]:
+    for k, (d, al, rev, ap, pad) in enumerate(cfgs[1:]):
+        # between two reconfigurations the system is USED the way the methods use it (a deterministic function of the history,
+        # so that replays repeat it): weights are added to the main diagonal in place and the system is solved, on every other
+        # step also with `overwrite_ab=True`; a reconfiguration must not depend on what was done with the penalty before
+        if (k + n + d) % 2 == 0:
+            use_system(s, n, overwrite_ab=(k % 4 < 2))
         s.reset_diagonals(1, d, al, rev, ap, padding=pad)
     return s
+
+
+def use_system(s, n, overwrite_ab=False):
+    w = np.linspace(0.5, 1.5, n)
+    try:
+        lhs = s.add_diagonal(w)
+        s.solve(lhs, w * np.cos(np.arange(n)), overwrite_ab=overwrite_ab, overwrite_b=True)
+    except Exception:      # noqa: BLE001  (some layouts are not meant to be solved directly; the in-place update is what matters)
+        pass
 
 
 def sys_state(s):
@@ -364,7 +378,12 @@ def correspond(ctx):
                  bool(rng.integers(0, 2))) for _ in range(int(rng.integers(2, 5)))]
         try:
             ps = PSpline(basis, *hist[0])
-            for h in hist[1:]:
+            for k, h in enumerate(hist[1:]):
+                if (k + nk + deg) % 2 == 0:      # the spline system is used (solved) between reconfigurations, as the methods do
+                    try:
+                        ps.solve_pspline(np.cos(7 * xs), np.linspace(0.5, 1.5, xs.size))
+                    except Exception:      # noqa: BLE001
+                        pass
                 ps.reset_penalty_diagonals(*h)
             fr = PSpline(basis, *hist[-1])
         except ValueError:
